@@ -75,7 +75,32 @@ macro_rules! width {
     }};
 }
 
+fn decimal(name: &str, a: &[String]) -> Option<String> {
+    use gmsol_utils::price::Decimal;
+    let n = |i: usize| -> u128 { a[i].parse::<u128>().unwrap() };
+    Some(match name {
+        // <price> <decimals> <token_decimals> <precision>
+        "try_from_price" => match Decimal::try_from_price(n(0), n(1) as u8, n(2) as u8, n(3) as u8) {
+            Ok(d) => format!("Ok({},{})", d.value, d.decimal_multiplier),
+            Err(_) => "Err".into(),
+        },
+        // <value> <decimal_multiplier> <unit price> <round_up>  ->  "<to_unit_price> <with_unit_price>"
+        "with_unit_price" => {
+            let d = Decimal { value: n(0) as u32, decimal_multiplier: n(1) as u8 };
+            let w = match d.with_unit_price(n(2), a[3] == "true") {
+                Some(x) => format!("Some({},{})", x.value, x.decimal_multiplier),
+                None => "None".into(),
+            };
+            format!("{} {}", d.to_unit_price(), w)
+        }
+        _ => return None,
+    })
+}
+
 pub fn dispatch(name: &str, a: &[String]) -> Option<String> {
+    if let Some(n) = name.strip_prefix("decimal.") {
+        return decimal(n, a);
+    }
     if let Some(n) = name.strip_prefix("u128.") {
         return width!(n, a, u128, i128, 20);
     }
